@@ -719,6 +719,7 @@ func buffersAreFreedAfterTheWrite(c *kit.Ctx) {
 	if n == 0 {
 		c.OK(send, "freed-after-write", send.Pos(), "send frees no pooled buffer")
 	}
+	pooledObjectsAreReturnedOnce(c)
 }
 
 // requestsAreMarshalledWithRequiredFields: no proto.MarshalOptions value of the module sets AllowPartial: with it a
